@@ -24,14 +24,18 @@ def run(ctx):
     # ------------------------------------------------------------ options layer
     f = ctx.fn("darling_core::options::core::Core::start")
     if f:
-        sn = ctx.find_aggregates(f, r"^ident_case::RenameRule$", "SnakeCase")
-        ctx.ob("C09.G.snake-case-shape", f.key, "one SnakeCase construction", len(sn) == 1, "%d" % len(sn))
-        for blk, i, st in sn:
-            ctx.requires("C09.G.snake-case-only-for-enums", f, blk, "RenameRule::SnakeCase", [r"discr\(a1\.data\)=Enum$"])
-        dfl = [blk for blk, t in ctx.find_calls(f, r"^<ident_case::RenameRule as core::default::Default>::default$")]
-        for blk in dfl:
-            ctx.requires("C09.G.default-rule-otherwise", f, blk, "RenameRule::default()", [("ne", r"^discr\(a1\.data\)$", "Enum")])
-        ctx.ob("C09.G.default-rule-otherwise", f.key, "default rule for non-enums", len(dfl) == 1, "%d default() calls" % len(dfl))
+        # the case table of `start` (helpers, public or not, read by their definition): the container's
+        # default case rule is snake_case for an enum and the default rule for everything else
+        from vlib import resalg
+        rows = [(c, v) for c, v in resalg.cases(ctx, f, deep=True) if v.startswith("core::result::Result::Ok{")]
+        SN, DF = "ident_case::RenameRule::SnakeCase", "<ident_case::RenameRule as core::default::Default>::default()"
+        en = [(c, v) for c, v in rows if "discr(a1.data)=Enum" in c]
+        oth = [(c, v) for c, v in rows if "discr(a1.data)=Enum" not in c]
+        ctx.ob("C09.G.snake-case-shape", f.key, "Ok cases for enums and for other bodies", bool(en) and bool(oth), "%d enum cases, %d others" % (len(en), len(oth)))
+        ctx.ob("C09.G.snake-case-only-for-enums", f.key, "RenameRule::SnakeCase", all(SN in v and DF not in v for c, v in en) and all(SN not in v for c, v in oth),
+               "enum cases %s; other cases %s" % ([c for c, v in en], [c for c, v in oth]))
+        ok = bool(oth) and all(DF in v for c, v in oth) and all(any(re.match(r"^discr\(a1\.data\)=(Struct|\('not-in', \('Enum'.*)$", a) for a in c) for c, v in oth)
+        ctx.ob("C09.G.default-rule-otherwise", f.key, "default rule for non-enums", ok, "other cases %s" % [(c, DF in v) for c, v in oth])
     f = ctx.fn("darling_core::options::input_variant::InputVariant::with_inherited")
     if f:
         ren = ctx.find_calls(f, r"^ident_case::RenameRule::apply_to_")
